@@ -13,6 +13,7 @@ import (
 	"path/filepath"
 	"sort"
 	"strings"
+	"time"
 )
 
 type loadOutcome struct {
@@ -61,7 +62,17 @@ func c05Case(sc *streamCase, idx int, st *Stats) *Violation {
 	}
 	chunkings := [][]int{nil, {1}, {3, 1, 0, 64}, {7, 13}, {0, 0, 5, 0, 1, 512}, {64}, {2}, {1000}}
 	ci := idx % len(chunkings)
+	t0 := time.Now()
 	out, h := loadCase(sc, chunkings[ci], idx%2)
+	if ms := time.Since(t0).Milliseconds(); ms > 3000 && st != nil {
+		st.inc("loads_slower_than_3s", 1)
+		n := 0
+		for i := range sc.Readers {
+			n += len(sc.Readers[i].bytes())
+		}
+		st.sample(map[string]any{"slow_load_ms": ms, "kind": sc.Kind, "at": sc.At, "bytes": n, "chunking": chunkings[ci]})
+		fmt.Fprintf(os.Stderr, "SLOW-LOAD %d ms kind=%s at=%d bytes=%d chunking=%v\n", ms, sc.Kind, sc.At, n, chunkings[ci])
+	}
 	if st != nil {
 		st.inc("cases", 1)
 		st.fault(sc.Kind)
@@ -164,7 +175,7 @@ func c05World(tp *Tape, env *Env) (*Plan, *Violation) {
 		MaxNodes: 2, MaxStmts: 4, MaxDepth: 2, MaxTotal: tp.Int(3, 12, "size"),
 		WLine: 6, WOptions: 4, WIf: 4, WSet: 3, WDeclare: 1, WJump: 1, WJumpE: 1, WStop: 1, WCall: 1, WCommand: 2, WWait: 1,
 		NVars: [3]int{1, 1, 1}, Probes: true, Visited: true, ExprDepth: 2, InlinePct: 30, TagPct: 25, CondPct: 30,
-		NoDeclarePrelude: true, NonASCII: tp.Bool("nonascii"), TrackingPct: 20,
+		NoDeclarePrelude: true, NoLongLines: true, NonASCII: tp.Bool("nonascii"), TrackingPct: 20,
 		Handlers: []HandlerSpec{{Name: "c0", Shape: "raw_prefilled"}},
 	}
 	g := &gen{tp: tp, cfg: cfg}
